@@ -40,27 +40,32 @@ def simplifyTheory (p : Portfolio) (fuel : Nat) (t : Theory) : Option Theory :=
     let (g, ok) := simplifyWith p .fixpoint fuel f
     if ok then some g else none
 
+/-- what happens to one program: translate, simplify (HT), gamma, simplify (classic), break -/
+def processTheory (t : StrongTask) (fuel : Nat) (prog : Program) : Option Theory := do
+  let th := match t.rep with | .mu => mu prog | .tauStar => tauStar prog
+  let th ← if t.simplify then simplifyTheory .ht fuel th else some th
+  let th := gammaTheory th
+  let th ← if t.simplify then simplifyTheory .classic fuel th else some th
+  some (if t.breakEq then breakEquivalencesTheory th else th)
+
+/-- the problem of one direction before decomposition -/
+def directionProblem (name : String) (tr ax cj : Theory) (axPre cjPre : String) : Problem :=
+  ((((⟨name, []⟩ : Problem).addTheory tr "transition_axiom_" .axiom).addTheory ax axPre .axiom).addTheory
+    cj cjPre .conjecture).renameConflictingSymbols.uniqueNames
+
+/-- (The Rust code interleaves the two programs' steps; in the `Option` monad the order of the
+    independent steps is immaterial: the result is `none` iff some formula did not converge.) -/
 def strongProblems (t : StrongTask) (fuel : Nat) : Option (List Problem) := do
   let tr := transitionAxioms t
-  let left := match t.rep with | .mu => mu t.left | .tauStar => tauStar t.left
-  let right := match t.rep with | .mu => mu t.right | .tauStar => tauStar t.right
-  let left ← if t.simplify then simplifyTheory .ht fuel left else some left
-  let right ← if t.simplify then simplifyTheory .ht fuel right else some right
-  let left := gammaTheory left
-  let right := gammaTheory right
-  let left ← if t.simplify then simplifyTheory .classic fuel left else some left
-  let right ← if t.simplify then simplifyTheory .classic fuel right else some right
-  let left := if t.breakEq then breakEquivalencesTheory left else left
-  let right := if t.breakEq then breakEquivalencesTheory right else right
+  let left ← processTheory t fuel t.left
+  let right ← processTheory t fuel t.right
   let fwd : List Problem :=
     if t.direction = .universal ∨ t.direction = .forward then
-      [((((⟨"forward", []⟩ : Problem).addTheory tr "transition_axiom_" .axiom).addTheory left "left_" .axiom).addTheory
-          right "right_" .conjecture).renameConflictingSymbols.uniqueNames]
+      [directionProblem "forward" tr left right "left_" "right_"]
     else []
   let bwd : List Problem :=
     if t.direction = .universal ∨ t.direction = .backward then
-      [((((⟨"backward", []⟩ : Problem).addTheory tr "transition_axiom_" .axiom).addTheory right "right_" .axiom).addTheory
-          left "left_" .conjecture).renameConflictingSymbols.uniqueNames]
+      [directionProblem "backward" tr right left "right_" "left_"]
     else []
   some ((fwd ++ bwd).flatMap fun p => p.decompose t.decomposition)
 
